@@ -14,15 +14,25 @@
      words; those continuation fragments belong to the word and carry no prefix).
    - the filtered text parses to exactly the allowed sub-tree: at attributes level 0 for every tree of the
      shape the parser builds (dtree_ok; no hypothesis on the levels is needed: a non-numeric level of a
-     visible object makes printing fail, one inside a hidden sub-tree is never looked at), at level 3 for
-     trees with bool/int attributes; the trees re-parsed from level 0 and from level 3 agree once
-     attributes are ignored (C19_filtered_text_parses_level0, _level3_partial, C19_reparsed_levels_agree_partial);
+     visible object makes printing fail, one inside a hidden sub-tree is never looked at); at EVERY attributes
+     level >= 1 (1, 2, 3, ...) for trees with dot-free names whose attributes are unset, bool, int or STRING valued
+     (.help .caption .short_caption .style .alias; a string may hold blanks, quotes, backslashes, newlines), each
+     string short enough to be printed on its line at the print width (stree_ok; the printer then writes it as
+     one word, bare or double-quoted, and textwrap is not reached): the re-parsed tree carries exactly the
+     attributes visible at that level (C19_filtered_text_parses_levels; _level3 and _level2 in the terms of erase3:
+     both levels rebuild the same attribute lists;
+     _level3_partial is the older bool/int statement, contained in the new one: C19_old_domain_is_contained);
+     the trees re-parsed from ANY TWO levels >= 0 agree once attributes are ignored (C19_reparsed_levels_agree;
+     the two runs may use different widths and oracles); the domain holds no deprecated definition (level < 3
+     hides those by design of the printer: C19_example_deprecated_levels_differ);
    - every parse result whose expert levels are unset or numbers satisfies wf_show, so the expert-filter
      theorem applies to every such parsed document (C19_parsed_trees_are_wf).
-   Still decided by the correspondence stream + oracle only: attribute levels 1 and 2 and string-valued /
-   .type / .call attributes in the re-parse clauses. *)
+   PARTIAL, still decided by the correspondence stream + oracle only: string attributes that are WRAPPED over
+   several lines (the re-parsed value then is the text with every run of blanks/newlines turned into one blank,
+   not the value: C19_example_wrapped_text_differs; the skeleton still agrees there), .type / .call /
+   .sequential_format / Auto-valued attributes, dotted names at levels >= 1, deprecated definitions. *)
 From Coq Require Import List Ascii String ZArith Bool.
-From Phil Require Import Base Tokenizer Tree Parser Show ShowProofs ShowPrefix ShowErase WordsRoundtrip TreeRoundtrip ShowReparse ParserShape.
+From Phil Require Import Base Tokenizer Tree Parser Show ShowProofs ShowPrefix ShowErase WordsRoundtrip TreeRoundtrip ShowReparse ShowReparseAttrs ParserShape.
 Import ListNotations.
 
 Theorem C19_expert_filter_is_prune : forall k l, forallb wf_show l = true -> forall prefix level width,
@@ -124,3 +134,76 @@ u {
 }
 ").
 Proof. vm_compute. reflexivity. Qed.
+
+(* ---------- the re-parse clause with string-valued attributes, at every attributes level >= 1 *)
+Theorem C19_filtered_text_parses_levels : forall lvl o l e w text, (0 <? lvl)%Z = true ->
+  forallb (stree_ok (width_of w) []) l = true ->
+  as_str l [] e lvl w = Ok text ->
+  exists l', parse o text = Ok l' /\ map erase_obj l' = map (eraseL lvl) (shown e l).
+Proof. exact filtered_text_parses_levels. Qed.
+Print Assumptions C19_filtered_text_parses_levels.
+
+Theorem C19_filtered_text_parses_level3 : forall o l e w text,
+  forallb (stree_ok (width_of w) []) l = true ->
+  as_str l [] e 3 w = Ok text ->
+  exists l', parse o text = Ok l' /\ map erase_obj l' = map erase3 (shown e l).
+Proof. exact filtered_text_parses_level3_strings. Qed.
+Print Assumptions C19_filtered_text_parses_level3.
+
+Theorem C19_filtered_text_parses_level2 : forall o l e w text,
+  forallb (stree_ok (width_of w) []) l = true ->
+  as_str l [] e 2 w = Ok text ->
+  exists l', parse o text = Ok l' /\ map erase_obj l' = map erase3 (shown e l).
+Proof. exact filtered_text_parses_level2_strings. Qed.
+Print Assumptions C19_filtered_text_parses_level2.
+
+Theorem C19_reparsed_levels_agree : forall la lb oa ob l e wa wb ta tb l1 l2,
+  (0 <=? la)%Z = true -> (0 <=? lb)%Z = true ->
+  forallb (stree_ok (width_of wa) []) l = true -> forallb (stree_ok (width_of wb) []) l = true ->
+  as_str l [] e la wa = Ok ta -> parse oa ta = Ok l1 ->
+  as_str l [] e lb wb = Ok tb -> parse ob tb = Ok l2 ->
+  map erase_all l1 = map erase_all l2.
+Proof. exact reparsed_any_levels_agree. Qed.
+Print Assumptions C19_reparsed_levels_agree.
+
+(* not vacuous: on the domain every level prints and the text parses *)
+Theorem C19_reparsed_levels_defined : forall lvl o l e w, (0 <? lvl)%Z = true ->
+  forallb (stree_ok (width_of w) []) l = true ->
+  exists text l', as_str l [] e lvl w = Ok text /\ parse o text = Ok l'.
+Proof. exact reparsed_levels_defined. Qed.
+Print Assumptions C19_reparsed_levels_defined.
+
+Theorem C19_old_domain_is_contained : forall w o p, atree_ok o = true -> stree_ok w p o = true.
+Proof. exact atree_ok_stree_ok. Qed.
+Print Assumptions C19_old_domain_is_contained.
+
+Theorem C19_pruning_stays_in_the_string_domain : forall w p e l,
+  forallb (stree_ok w p) l = true -> forallb (stree_ok w p) (shown e l) = true.
+Proof. exact shown_keeps_stree_ok. Qed.
+Print Assumptions C19_pruning_stays_in_the_string_domain.
+
+(* non-vacuity: a scope with a help text, a definition whose help text holds blanks and a quote (sa_tree) *)
+Example C19_example_string_domain :
+  forallb (stree_ok default_width []) sa_tree = true /\ forallb atree_ok sa_tree = false.
+Proof. exact sa_in_domain. Qed.
+Example C19_example_string_roundtrips :
+  map erase_obj (sa_parsed 3 None None) = map erase3 sa_tree
+  /\ map erase_obj (sa_parsed 2 None None) = map erase3 sa_tree
+  /\ map erase_obj (sa_parsed 1 None None) = map (eraseL 1) sa_tree
+  /\ map erase_obj (sa_parsed 3 (Some 0%Z) None) = map erase3 (prunes 0 sa_tree)
+  /\ map erase_all (sa_parsed 1 (Some 0%Z) None) = map erase_all (sa_parsed 3 (Some 0%Z) None)
+  /\ map erase_all (sa_parsed 0 (Some 0%Z) None) = map erase_all (sa_parsed 2 (Some 0%Z) None)
+  /\ length (prunes 0 sa_tree) = 1 /\ map erase_all (prunes 0 sa_tree) <> map erase_all sa_tree.
+Proof. exact sa_roundtrips. Qed.
+(* outside the domain: a wrapped text comes back with its blanks normalised; a deprecated definition is
+   printed at level 3 only *)
+Example C19_example_wrapped_text_differs :
+  forallb (stree_ok 20 []) sa_tree = false
+  /\ map erase_obj (sa_parsed 3 None (Some 20%Z)) <> map erase3 sa_tree
+  /\ map erase_all (sa_parsed 3 None (Some 20%Z)) = map erase_all sa_tree.
+Proof. exact wrapped_differs. Qed.
+Example C19_example_deprecated_levels_differ :
+  forallb (stree_ok default_width []) sa_dep = false
+  /\ as_str sa_dep [] None 2 None = Ok (s_ "y = 2
+").
+Proof. exact deprecated_hidden_at_level2. Qed.
